@@ -1069,6 +1069,19 @@ script main { }
 for fmt, magic, op, call in [('ANM_12', '!anmmap', 51, 'ins_51(-1);'), ('MSG_09', '!msgmap', 4, 'ins_4(-1);'), ('ECL_06', '!eclmap', 0, 'ins_0(-1);'), ('STD_12', '!stdmap', 7, 'ins_7(-1);')]:
     add('feature/%s-builtin-signature-redefined' % fmt.lower().replace('_', ''), fmt, mapfiles=['%s\n!ins_signatures\n%d s--\n' % (magic, op)], main_body='    %s\n+10:\n    %s\n' % (call, call.replace('-1', '300')))
 
+# (m) instructions with as many arguments as the parameter mask has bits, one fewer, one more
+for fmt, magic in [('ANM_12', '!anmmap'), ('ECL_08', '!eclmap')]:
+    add('feature/%s-15-16-17-arguments' % fmt.lower().replace('_', ''), fmt, mapfiles=['%s\n!ins_signatures\n2015 %s\n2016 %s\n2017 %s\n2033 %s\n' % (magic, 'S' * 15, 'S' * 16, 'S' * 17, 'S' * 33)], main_body=''.join('    ins_%d(%s);\n' % (2000 + n, ', '.join(str(i + 1) for i in range(n))) for n in (15, 16, 17, 33)) + '    ins_2016(I0, 2, 3, 4, 5, 6, 7, 8, 9, 10, 11, 12, 13, 14, 15, I1);\n')
+# (n) stack ECL: difficulty switches over strings of different padded length, ints and floats
+add('feature/ecl10-diff-switch-strings', 'ECL_10', mapfiles=['!eclmap\n!ins_signatures\n342 SSSp(bs=4)\n343 Sf\n344 p(bs=4)S\n'], main_body='''
+    ins_342(0, 60, 500000, "Easy" : "Normal sign" : "Hard sign, a longer one" : "L");
+lbl:
+    ins_343(1 : 2 : 3 : 4, 1.0 : 2.0 : 3.0 : 4.5);
+    ins_344("a" : "ab" : "abc" : "abcde", 7);
+lbl2:
+    ins_343(5, 1.5);
+''')
+
 # --- seeded generated programs (tools/gen_programs.py): ids gen/<profile>-<k>, tag 'gen'
 import gen_programs
 for g in gen_programs.generate():
